@@ -1,6 +1,8 @@
 package pxw
 
 import (
+	"fmt"
+	"os"
 	"testing"
 
 	"verif/sim/kernel"
@@ -21,6 +23,19 @@ func init() {
 				plan.Ops = append(plan.Ops, kernel.Op{ID: j + 1, Kind: k, A: []int64{int64(j % 2), 1, int64(j % 2), 7}})
 			}
 			C04{}.Run(t, plan, false)
+		}
+	}
+}
+
+func init() {
+	if f := os.Getenv("VERIF_DUMP_STMTS"); f != "" {
+		DebugHook = func(pw *PgWorld, run *SessionRun, script []Stmt) {
+			if fh, err := os.OpenFile(f, os.O_APPEND|os.O_CREATE|os.O_WRONLY, 0o644); err == nil {
+				for _, s := range pw.DB.Statements {
+					fmt.Fprintf(fh, "%d %.60q ... %q\n", len(s), s, s[max(0, len(s)-700):])
+				}
+				fh.Close()
+			}
 		}
 	}
 }
